@@ -136,6 +136,7 @@ def build(cfg, source, start=None, with_state=False):
     fam, agg, wk, w, col = cfg["family"], cfg["agg"], cfg["winkind"], cfg["w"], cfg["col"]
     pre = cfg.get("pre", "none")
     mid = None
+    root = sdf
     if pre == "pos":
         sdf = sdf[sdf[col] > 0]
         mid = sdf
@@ -159,7 +160,9 @@ def build(cfg, source, start=None, with_state=False):
             kw["start"] = start
         return getattr(x, agg)(**kw), mid
     if fam == "groupby":
-        g = sdf.groupby(sdf.k if cfg.get("grouper") == "stream" else "k")
+        # grouper "rootstream": the key column of the *unfiltered* frame groups the filtered / projected one (pandas aligns them by
+        # index); the frame's branch hangs on the source before the grouper's branch does
+        g = sdf.groupby(root.k if cfg.get("grouper") == "rootstream" else sdf.k if cfg.get("grouper") == "stream" else "k")
         x = sel(g)
         if agg in ("sum", "count", "mean") and start is not None:
             kw["start"] = start
@@ -323,6 +326,8 @@ def configs(tier):
         add("groupby", agg)
         add("groupby", agg, grouper="stream")
     add("groupby", "sum", frame=True, col="w"); add("groupby", "mean", pre="pos")
+    for agg in ("sum", "count", "mean", "size"):
+        add("groupby", agg, pre="pos", grouper="rootstream")
     for n in ((1, 2, 3) if tier != "quick" else (1, 2)):
         for agg in ("sum", "count", "size", "mean", "var", "value_counts"):
             add("window", agg, "rows", n)
@@ -384,6 +389,9 @@ def batch_sequences(cfg, rng, count, maxrows=3, maxbatches=4):
     out.append([[], [[1, 1, 1], [nan, 2, 2]], [[2, 1, 3]]])
     out.append([[[nan, 1, 1]], [[2, 2, 2], [0, 1, 3]], []])
     out.append([[[1, 1, 1], [2, 2, 1], [0, 1, 2]], [], [[2, 2, 4], [1, 3 if 3 in kdom else 1, 4]]])
+    if cfg.get("grouper") == "rootstream":
+        # a grouper aligned by index needs unique labels (pandas itself refuses duplicates)
+        out = [s for s in out if len({r[2] for b in s for r in b}) == sum(len(b) for b in s)]
     return out
 
 
